@@ -156,6 +156,7 @@ func RunWalk(b *Built, root datamodel.Node, s selector.Selector, o WalkOpts) Lib
 	var out LibWalk
 	b.Store.Reads = nil
 	ls := *b.LS
+	ls.KnownReifiers = Reifiers
 	cfg := &traversal.Config{
 		LinkSystem: ls,
 		LinkTargetNodePrototypeChooser: func(datamodel.Link, linking.LinkContext) (datamodel.NodePrototype, error) {
@@ -340,9 +341,25 @@ func CutSets(tree ref.Val, maxCuts int, containersOnly bool) [][]int {
 }
 
 // Config returns a traversal config over the built graph's link system.
+// Reifiers: the real counterparts of ReifyVal, for LinkSystem.KnownReifiers.
+var Reifiers = func() map[string]linking.NodeReifier {
+	mk := func(name string) linking.NodeReifier {
+		return func(_ linking.LinkContext, n datamodel.Node, _ *linking.LinkSystem) (datamodel.Node, error) {
+			v, pan := ref.Read1(n)
+			if pan != "" {
+				return nil, fmt.Errorf("harness: cannot read the node to reify: %s", pan)
+			}
+			return ref.Basic(ReifyVal(name, v)), nil
+		}
+	}
+	return map[string]linking.NodeReifier{"rev": mk("rev"), "box": mk("box")}
+}()
+
 func (b *Built) Config() *traversal.Config {
+	ls := *b.LS
+	ls.KnownReifiers = Reifiers
 	return &traversal.Config{
-		LinkSystem: *b.LS,
+		LinkSystem: ls,
 		LinkTargetNodePrototypeChooser: func(datamodel.Link, linking.LinkContext) (datamodel.NodePrototype, error) {
 			return basicnode.Prototype.Any, nil
 		},
